@@ -34,6 +34,8 @@ pub trait Svc {
     fn add(&self, a: u32, b: u32) -> u32;
     fn echo_string(&self, s: String) -> String;
     fn echo_vec(&self, v: Vec<u8>) -> Vec<u8>;
+    fn join(&self, s: String, tag: u32) -> (String, u32);
+    fn concat(&self, a: String, b: String) -> String;
     fn sum_ref(&self, p: &Packed3) -> u64;
     fn len_ref(&self, r: &Rec) -> usize;
     fn count_str(&self, s: &str) -> usize;
@@ -108,6 +110,18 @@ impl Svc for SvcImpl {
         let mut v = v;
         v.reverse();
         v
+    }
+    fn join(&self, s: String, tag: u32) -> (String, u32) {
+        fault_point("join");
+        log(format!("impl.join {} tag={}", digest(s.as_bytes()), tag));
+        (s, tag.wrapping_add(1))
+    }
+    fn concat(&self, a: String, b: String) -> String {
+        fault_point("concat");
+        log(format!("impl.concat {} {}", digest(a.as_bytes()), digest(b.as_bytes())));
+        let mut r = a;
+        r.push_str(&b);
+        r
     }
     fn sum_ref(&self, p: &Packed3) -> u64 {
         fault_point("sum_ref");
